@@ -166,6 +166,21 @@ def check():
         return [{'mechanism': 'harness-error', 'case': {'canary': 'overlap'},
                  'msg': 'the overlap scenario is not deterministic / does not end normally '
                         'when run alone: %s' % (alone[-3:],)}], {}
+    # the same program started from clean-up code: while an exception is being handled in the
+    # caller (sys.exc_info() is set for the whole run) - that is none of the simulation's business
+    try:
+        raise LookupError('being handled while the simulation runs')
+    except LookupError:
+        handled = simulation(lambda: None)
+    if handled != alone:
+        diff = next((index for index, pair in enumerate(zip(handled, alone))
+                     if pair[0] != pair[1]), min(len(handled), len(alone)))
+        return [{'mechanism': 'simulation-disturbed-by-exception-handled-by-the-caller',
+                 'case': {'canary': 'overlap'},
+                 'msg': 'a simulation run from inside an `except` block behaves differently '
+                        'from the same program run normally: entry %d is %r instead of %r' % (
+                            diff, handled[diff] if diff < len(handled) else None,
+                            alone[diff] if diff < len(alone) else None)}], {}
     table = PingPong()
     logs = {}
 
